@@ -301,9 +301,12 @@ class AsyncTLSStreamTransport(AsyncStreamTransport):
                 raise
             else:
                 # Flush any pending writes first
-                async with self.__transport_send_lock:
-                    if self._write_bio.pending:
-                        await self._transport.send_all(self._write_bio.read())
+                # NOTE: Do not wait for the lock if there is nothing to flush.
+                #       A cancellation at this point would discard the result, i.e. already decrypted data would be lost.
+                if self._write_bio.pending:
+                    async with self.__transport_send_lock:
+                        if self._write_bio.pending:
+                            await self._transport.send_all(self._write_bio.read())
 
                 return result
 
